@@ -64,12 +64,14 @@ structure NodeD where
   sqlErrno : Int
   executed : String
   retrieved : String
+  lagS : Option Int := none            -- Seconds_Behind_Source as the server reported it at that moment
   deriving Repr
 
 def parseNodeD (j : Json) : NodeD :=
   { host := jStrOr j "host" "", alive := jBoolOr j "alive" false, ro := jBoolOr j "ro" false, isReplica := jBoolOr j "is_replica" false,
     source := jStrOr j "source" "", io := jBoolOr j "io" false, sql := jBoolOr j "sql" false, ioErrno := jIntOr j "io_errno" 0,
-    sqlErrno := jIntOr j "sql_errno" 0, executed := jStrOr j "executed" "", retrieved := jStrOr j "retrieved" "" }
+    sqlErrno := jIntOr j "sql_errno" 0, executed := jStrOr j "executed" "", retrieved := jStrOr j "retrieved" "",
+    lagS := (jOpt j "lag_s").map fun v => numToInt v 0 }
 
 def totalOf (n : NodeD) : GtidSet :=
   if n.isReplica then update (parseD n.executed) (parseD n.retrieved) else parseD n.executed
@@ -137,7 +139,9 @@ def handle : Handler := fun j a => do
   let posList : List Pos := match lock1Snap with
     | some s =>
       let nodes := snapNodes s
-      fr.filterMap fun h => (nodes.find? (·.host == h)).map fun n => { host := h, gtid := totalOf n, lag := 99999999, prio := prioOf h }
+      fr.filterMap fun h => (nodes.find? (·.host == h)).map fun n =>
+        -- an unknown lag (NULL) is the code's own 99999999
+        { host := h, gtid := totalOf n, lag := n.lagS.getD 99999999, prio := prioOf h }
     | none => []
   -- second view: reachability at the end approximates the view taken after catch-up (only used for targets)
   let afterLock2 := obsAll.dropWhile fun o => !(o.s == "lockCheck" && o.n == 2)
@@ -203,6 +207,15 @@ def handle : Handler := fun j a => do
   let quorum : Int := if cfg.semiSync then max ((active.length : Int) - min ((active.length : Int) / 2) cfg.waitCount) 1 else 1
   for s in snaps do
     let at_ := jStrOr s "at" ""
+    -- C19: optimisation is switched off on every candidate before the freeze — when the first lock re-check is reached
+    -- (the freeze is over) no reachable list member carries relaxed settings or is still registered
+    if at_ == "lock1" then
+      let reg := (jStrList s "opt_registry").toOption.getD []
+      for nd in (((jOpt s "nodes").bind fun n => n.getArr?.toOption).getD #[]).toList do
+        let h := jStrOr nd "host" ""
+        if active.contains h && jBoolOr nd "alive" false && !jBoolOr nd "hang" false &&
+            (jIntOr nd "flush_log" 1 != 1 || jIntOr nd "sync_binlog" 1 != 1 || reg.contains h) then
+          a := a.violationSig "C19:list-member-frozen-while-relaxed-or-registered" s!"{h} (registry {reg}) in {j.compress}"
     if at_.startsWith "writable:" then
       let h := (at_.drop 9).toString
       if h != oldMaster then
@@ -245,8 +258,14 @@ def handle : Handler := fun j a => do
           if before.zipIdx.any (fun (o, k) => (o.s == "freezeRO" || o.s == "stopIO") && (match i1 with | some x => k > x | none => true)) then
             a := a.violationSig "C03:lock-not-reconfirmed-after-the-freeze" j.compress
   -- split brain among the frozen positions ⇒ nothing promoted, marker written
-  if !posList.isEmpty && obs.any (fun o => o.s == "lockCheck" && o.n == 1 && o.ok) then
-    let hasMax := posList.any fun m => posList.all fun p => contain m.gtid p.gtid
+  -- (a server the scenario killed during the freeze may have executed its freeze statements without the procedure ever
+  -- seeing the answers: it is no frozen member for the procedure, and a dead server's position cannot be read)
+  let posSeen := match lock1Snap with
+    | some s => posList.filter fun (p : Pos) =>
+        !(p.host == killedHost && (((snapNodes s).find? fun (n : NodeD) => n.host == p.host).map fun (n : NodeD) => n.alive) == some false)
+    | none => posList
+  if !posSeen.isEmpty && obs.any (fun o => o.s == "lockCheck" && o.n == 1 && o.ok) then
+    let hasMax := posSeen.any fun m => posSeen.all fun p => contain m.gtid p.gtid
     let positionsRead := has "setOnline" || has "changeMaster" || emerge || sawLock2
     if !hasMax then
       if has "setWritable" || has "resetSlaveAll" then a := a.violationSig "C01:promotion-despite-split-brain" j.compress
@@ -281,6 +300,20 @@ def handle : Handler := fun j a => do
         | none, _ => a := a.violationSig "C11:unconfirmed-old-master-not-marked-for-recovery" j.compress
         | _, _ => pure ()
   let promotedOk := obs.any fun o => o.s == "setWritable" && o.ok
+  -- C07 (re-runnable from what the procedure leaves behind): the list the procedure publishes at promotion is computed from
+  -- the cluster as it is THEN — in a run without an injected fault every replica that follows the new master with both
+  -- threads running is in it (the successor of a manager that dies right after judges the request against this list)
+  let noFault := match jOpt j "fault" with | some (.obj kv) => kv.toList.isEmpty | _ => true
+  -- (not in async mode: a node promoted under the allowed-lag exception rightly keeps replicas that are ahead of it out)
+  if noFault && !cfg.async && promotedOk && (obs.any fun o => o.s == "setMasterKey" && o.ok) then
+    let nmH := jStrOr j "master_after" ""
+    let activeAfter := (jStrList j "active_after").toOption.getD []
+    let hosts := (jStrList j "hosts").toOption.getD []
+    for nd in ((jOpt j "final").bind fun n => n.getArr?.toOption).getD #[] do
+      let h := jStrOr nd "host" ""
+      if hosts.contains h && h != nmH && jBoolOr nd "alive" false && !jBoolOr nd "hang" false && jBoolOr nd "is_replica" false &&
+          jStrOr nd "source" "" == nmH && jBoolOr nd "io" false && jBoolOr nd "sql" false && !activeAfter.contains h then
+        a := a.violationSig "C07:list-published-at-promotion-omits-a-replica-that-follows-the-new-master" s!"{h} not in {activeAfter}; {j.compress}"
   -- C19: the speed-up phase has ended, with settings restored, before the freeze — nothing the procedure started may act
   -- after it returned (20 s of settling time), and no server is left relaxed without being registered as optimising
   let late := (jStrList j "late").toOption.getD []
